@@ -8,7 +8,8 @@
      parse_print_id  int(str(i)) == i
      print_good / print_id_good   str(x), str(i) are non-empty and contain no whitespace
      wrap_idem       neg_pi_to_pi(neg_pi_to_pi(a)) == neg_pi_to_pi(a)      (only C13_cycles)
-     normq_idem      normalize(normalize(q)) == normalize(q)               (only C13_cycles; true of the real-number
+     normq_length    len(normalize(q)) == len(q); eq0_zero  0.0 == 0.0    (only C13_cycles_n)
+     normq_idem      normalize(normalize(q)) == normalize(q)               (only C13_cycles, C13_cycles_n; true of the real-number
                      model, true of the doubles only up to 1 ulp -- the harness measures it; see evidence) *)
 From Coq Require Import List ZArith String Ascii Bool Arith.
 From GS Require Import G2OModel G2OSpec C13_roundtrip C13_cycles.
@@ -70,24 +71,35 @@ Section C13.
     exact (conj (refuses num print print_id eq0 eqn)
           (conj (export_ok_iff num print print_id eq0 eqn) (not_expressible_cases num eq0 eqn))).
   Qed.
+  (* any number n >= 1 of export/import cycles yields canon g.  Extra oracle hypotheses: normalize keeps the
+     length 4, 0.0 == 0.0; extra hypothesis on the graph: x == x on the entries of every SE(3) offset parameter
+     the writer emits (offs_refl: none of them is NaN -- np.array_equal would call a NaN offset "conflicting"). *)
+  Theorem C13_cycles_n :
+    (forall x, parse (print x) = Some x) -> (forall z, parse_id (print_id z) = Some z) ->
+    (forall x, good_tok (print x)) -> (forall z, good_tok (print_id z)) ->
+    (forall x, wrap (wrap x) = wrap x) -> (forall q, normq (normq q) = normq q) ->
+    (forall q, List.length (normq q) = List.length q) -> eq0 zero = true ->
+    forall cts g n, cts_ok cts -> wf g -> no_written_custom num g -> expressible g -> offs_refl num eqn g ->
+    iter_cycle num print parse print_id parse_id wrap normq zero eq0 eqn cts (S n) g = Some (canon g).
+  Proof. exact (cycles_n num print parse print_id parse_id wrap normq zero eq0 eqn). Qed.
+
+  (* a refused export does not touch the disk (Graph.to_g2o formats every line before it opens the file);
+     a successful one writes exactly the lines of [export] *)
+  Theorem C13_refusal_leaves_no_file :
+    (forall g, (exists e, export g = Error e) -> export_file num print print_id eq0 eqn g = None) /\
+    (forall g ls, export g = Ok ls -> export_file num print print_id eq0 eqn g = Some ls).
+  Proof.
+    exact (conj (refusal_leaves_no_file num print print_id eq0 eqn) (success_writes_all num print print_id eq0 eqn)).
+  Qed.
 End C13.
 
 (* information: the symmetric matrix survives packing to the upper triangle and back *)
 Theorem C13_unpack_pack : forall (A : Type) (n : nat) (M : list (list A)), symm n M -> unpack n (pack M) = M.
 Proof. exact (@C14_text.unpack_pack). Qed.
 
-(* REFUTED (witness by computation): a refused export does NOT always leave the disk untouched.  For the graph
-   [ex_partial] (an SE(2) odometry edge followed by an R^2 odometry edge) export raises NotImplementedError and the
-   file already holds 5 lines (4 vertices + the first edge): a truncated graph that from_g2o loads without complaint. *)
-Theorem C13_refusal_leaves_no_file_refuted :
-  exists g : graph Z,
-    wf Z g /\
-      (forall print print_id, export Z print print_id (Z.eqb 0) Z.eqb g = Error ENotImplemented) /\
-      (forall print print_id, exists ls, export_file Z print print_id (Z.eqb 0) Z.eqb g = Some ls /\ List.length ls = 5).
-Proof. exact refusal_leaves_no_file_refuted. Qed.
-
 Print Assumptions C13_roundtrip.
 Print Assumptions C13_cycles.
 Print Assumptions C13_refuses.
 Print Assumptions C13_unpack_pack.
-Print Assumptions C13_refusal_leaves_no_file_refuted.
+Print Assumptions C13_cycles_n.
+Print Assumptions C13_refusal_leaves_no_file.
